@@ -178,7 +178,20 @@ pub(crate) fn handle_submit(
             match &mut message.submit_desc.task_desc {
                 JobTaskDescription::Array { ids, entries, .. } => {
                     if ids.is_empty() {
-                        let new_id = job.max_id().map(|x| x.as_num() + 1).unwrap_or(0);
+                        // The new ids continue directly after the largest id of the job.
+                        // The end of their range has to fit into u32 (as in each `IntRange`).
+                        let n_ids = entries.as_ref().map_or(1, |e| e.len() as JobTaskCount);
+                        let Some(new_id) = job
+                            .max_id()
+                            .map_or(Some(0), |x| x.as_num().checked_add(1))
+                            .filter(|new_id| new_id.checked_add(n_ids).is_some())
+                        else {
+                            return ToClientMessage::Error(
+                                "Invalid submit: task ids cannot be assigned automatically, \
+                                there are not enough ids after the largest task id of the job"
+                                    .to_string(),
+                            );
+                        };
                         if let Some(entries) = entries {
                             *ids =
                                 IntArray::from_range(new_id, entries.len() as JobTaskCount)
